@@ -1,6 +1,7 @@
 """C15 — picked protein: correspondence of Model/Strip.v + Model/Picked.v with
 mokapot.picked_protein.picked_protein / strip_peptides, utils.groupby_max and the protein level of
 assign_confidence (targets.proteins / decoys.proteins)."""
+import copy
 import itertools
 import json
 import os
@@ -17,28 +18,57 @@ PROP = "C15"
 RULE = ("(1) strip_peptides vs the scanners: every string over {A,k,.,[,],(,),-} up to length 6 (quick) / 7 (thorough) "
         "as one column through the real strip_peptides, every string up to length 4 / 5 as a one-row column (both "
         "branches of the column-wide lower-case rule), and the three regular expressions one by one against `re`; "
-        "random columns of annotated peptides as cases; (2) picked_protein on generated FASTA text parsed by the real "
+        "random columns of annotated peptides as cases, a second stream of them as str / string[python] / "
+        "string[pyarrow] / categorical Series with permuted, string, offset, negative or repeated row labels and with "
+        "digits / blanks / other symbols outside brackets (the answer must keep the labels and leave the argument alone); "
+        "(2) picked_protein on generated FASTA text parsed by the real "
         "read_fasta (2..7 target proteins drawing tryptic peptides from a small pool: subset, identical and "
         "shared-peptide structures; decoys mirrored / differently grouped / partly missing / absent = target-only "
         "FASTA), peptide tables over unique, shared and unknown peptides written with flanks 'K.' '-.', mods '[+16]' "
         "'(ox)' '[+79.97]', lower-case termini, all-lower-case columns; pairwise distinct scores (full comparison) and "
-        "a tie stream (pair key -> score only); (3) sanity-error stream around the 10% / 5% thresholds, empty and "
-        "all-shared tables; (4) the same tables through brew-less assign_confidence(proteins=...) reading "
-        "targets.proteins / decoys.proteins (q-values). distinct = distinct case; non-trivial = some peptide is "
+        "a tie stream (pair key -> score, and every entry must be a best row of its pair); (3) sanity-error stream "
+        "around the 10% / 5% thresholds, empty and "
+        "all-shared tables; (2p)/(3p) the same kinds of tables in drawn PRESENTATIONS, each facet non-default with "
+        "probability 0.2..0.45: column names (plain, blanks, non-ASCII, names of internal columns for the peptide "
+        "column), 1..3 extra columns named like internal / result columns, permuted column order, score dtype and "
+        "magnitude (float64 with steps of 2^-20 on 1024, times 2^40, times 2^-60, minus 5000, 2^52 + 2k; float32; "
+        "int64 around 0, 2^60, -2^62; int32 - always exact, the model sees integers over a common denominator), "
+        "peptide column as object / str / string[python] / string[pyarrow] / categorical, target column as numpy bool / "
+        "nullable boolean, row labels (permuted, offset, reversed, strings, negative, floats, sparse, (file,row) "
+        "MultiIndex, repeated = known finding), rng as Generator / int / numpy integer / RandomState, an earlier "
+        "picked_protein call on another table with the same Proteins object, decoy prefixes rev_ DECOY_ XXX_ decoy- d. "
+        "## r decoy_decoy_; after every call the peptide table and the Proteins object must be unchanged; "
+        "3 (quick) / 10 (thorough) tables with 40..90 proteins and several hundred rows; colliding target / score "
+        "column names and protein identifiers with a comma (known findings); (4) the same tables through brew-less "
+        "assign_confidence(proteins=...) reading targets.proteins / decoys.proteins (q-values), and (4p) in drawn "
+        "presentations of the run: tab-delimited / Parquet PSM file (Parquet = known finding), hand-built "
+        "OnDiskPsmDataset / read_pin, descs=[False] (model on negated scores), CONFIDENCE_CHUNK_SIZE in {1,2,3,5,7,n/2,"
+        "n-1,n,n+1}, a second collection with its own prefix before or after the observed one, old result files / "
+        "junk / an old level file in the destination directory, decoys=False, rng int / numpy integer, max_workers=3, "
+        "shuffled file order, fine / large / tiny score scales, other decoy prefixes. distinct = distinct case; "
+        "non-trivial = some peptide is "
         "written with flanks / modifications / lower-case marks or is unknown to the database (strip cases: a bracket, "
-        "parenthesis, '.' or an all-lower-case string occurs)")
+        "parenthesis, '.' or an all-lower-case string occurs). A case passes if model and real code agree AND the "
+        "property oracle accepts the real answer")
 ASSUMPTIONS = [
     "peptide strings are ASCII without newline (str.islower/upper modelled for A-Z/a-z; '.' of a regex = any character)",
-    "scores reach the model as exact integers (dyadic floats scaled by a common power of two)",
-    "tie stream: only pair key -> score is compared (which of several equally good rows wins is the sample oracle's choice; "
-    "pandas' multi-column sort is not assumed stable)",
+    "scores reach the model as exact integers (dyadic numbers scaled by a common power of two); NaN / infinite scores are not generated",
+    "tie stream: only pair key -> score is compared with the model (which of several equally good rows wins is the sample oracle's choice; "
+    "pandas' multi-column sort is not assumed stable); that the winner is one of the best rows of its pair is checked by the oracle",
     "q comparison: |impl - exact| <= 2^-23 * exact (as C01)",
     "the Proteins container comes from the real read_fasta and is handed to the model as data (C16 covers read_fasta)",
+    "the target column is boolean (numpy bool or pandas' nullable boolean): integer or object flags make `~flag` mean something else and are refused inputs",
+    "through assign_confidence a reported score within 2^-40 (relative) of a score of the table counts as that score: scores travel through "
+    "delimited text and pandas' default float parser is not round-trip exact",
+    "the pair of a group in the oracle = target->decoy map applied to the group's first identifier as the database spells it "
+    "(equal to the code's split(',')[0] unless an identifier contains a comma)",
 ]
 TRUSTED_EXTRA = [
     "Python `re` (oracle for the three substitutions; compared exhaustively with the scanners on short strings)",
     "DataFrame.sample(frac=1) (oracle: recorded row order; contract: covers every retained row)",
     "peptides.match_decoy (oracle: recorded decoy->target peptide table; target-only FASTA)",
+    "mokapot.read_pin / OnDiskPsmDataset and the PSM / peptide levels of assign_confidence (C10, C03): the confidence stream only "
+    "feeds one PSM per peptide string and spectrum",
 ]
 
 TOL = Fraction(1, 2 ** 23)
@@ -139,17 +169,19 @@ def mirror(pep, how, rng):
     return "".join(b) + last
 
 
-def gen_fasta(rng, mode, wide=False, trios=0):
+def gen_fasta(rng, mode, wide=False, trios=0, nprot=None, npool=None):
     """-> (fasta text, list of plain peptides of targets, of decoys); wide: many proteins, few overlaps;
     trios: number of (A, B, fragment) triples with fragment inside both A and B, A and B not nested (the fragment's
     group then has several candidate groups to join: the multi-match path of the grouping)"""
-    npool = rng.randint(14, 24) if wide else rng.randint(3, 9)
+    if npool is None:
+        npool = rng.randint(14, 24) if wide else rng.randint(3, 9)
     pool = []
     while len(pool) < npool:
         p = rand_pep(rng)
         if p not in pool:
             pool.append(p)
-    nprot = rng.randint(6, 11) if wide else rng.randint(2, 7)
+    if nprot is None:
+        nprot = rng.randint(6, 11) if wide else rng.randint(2, 7)
     names = ["sp|P%02d|X%d" % (k, k) if rng.random() < 0.3 else "P%d" % k for k in range(nprot)]
     prots = []
     for k in range(nprot):
@@ -196,7 +228,7 @@ def gen_fasta(rng, mode, wide=False, trios=0):
     return "\n".join(lines) + "\n", sorted(tpeps), sorted(dpeps)
 
 
-def gen_rows(rng, tpeps, dpeps, mode, lower=False, ties=False, unknown=None, nmax=40):
+def gen_rows(rng, tpeps, dpeps, mode, lower=False, ties=False, unknown=None, nmax=40, reps=None):
     rows = []
     cand = [(p, True, 0) for p in tpeps] + [(p, False, 0) for p in dpeps]
     if mode == "target-only":
@@ -212,7 +244,7 @@ def gen_rows(rng, tpeps, dpeps, mode, lower=False, ties=False, unknown=None, nma
                 cand.append((m, True, 1))         # the target row is known only to the decoy map
     rng.shuffle(cand)
     for p, t, least in cand:
-        for _ in range(max(least, rng.choice([0, 1, 1, 1, 2, 3]))):
+        for _ in range(max(least, rng.choice(reps or [0, 1, 1, 1, 2, 3]))):
             if len(rows) < nmax or least:
                 rows.append([t if (least or rng.random() < 0.93) else (not t), p])
     if unknown is None:
@@ -225,7 +257,8 @@ def gen_rows(rng, tpeps, dpeps, mode, lower=False, ties=False, unknown=None, nma
     if ties:
         sc = [rng.randint(0, 3) / 2 for _ in range(n)]
     else:
-        sc = [v / 8 for v in rng.sample(range(-400, 400), n)]
+        lim = 400 if n <= 800 else n
+        sc = [v / 8 for v in rng.sample(range(-lim, lim), n)]
     out = []
     for (t, p), s in zip(rows, sc):
         if lower:
@@ -240,12 +273,146 @@ def gen_rows(rng, tpeps, dpeps, mode, lower=False, ties=False, unknown=None, nma
 
 FASTA_ARGS = {"missed_cleavages": 0, "min_length": 3, "max_length": 50, "decoy_prefix": "decoy_"}
 
+# ----------------------------------------------------------------------------- presentations (white-box review)
+# A case is canonical data (FASTA text, rows = [target, peptide text, score in eighths, plain sequence]); the
+# presentation says how the caller hands that data to the real code.  The Coq model always sees the canonical
+# form (exact integer scores through a common denominator); every facet below must not change the answer.
+DEFAULT_NAMES = ["tgt", "pepcol", "sc"]
+INTERNAL_NAMES = ["best peptide", "stripped sequence", "mokapot protein group", "decoy"]
+# [target, peptide, score] column names that do not touch the frame picked_protein builds (the peptide column is
+# renamed first, so it may carry any name, also an internal one)
+HARMLESS_NAMES = [["Label", "Peptide", "score"], ["is target", "best peptide", "mokapot score"],
+                  ["target", "decoy", "sc"], ["tgt", "stripped sequence", "sc"], ["tgt", "mokapot protein group", "sc"],
+                  ["T", "P", "S"], ["index", "level_0", "0"], ["targét", "péptide", "scöre"],
+                  ["Decoy", "Stripped Sequence", "Best Peptide"], ["proteinIds", "PSMId", "q-value"],
+                  [" tgt", "pepcol ", "sc "]]
+# target / score columns named like a column picked_protein adds itself (known finding, see finding_key)
+COLLIDING_NAMES = [["decoy", "pepcol", "sc"], ["tgt", "pepcol", "decoy"], ["stripped sequence", "pepcol", "sc"],
+                   ["tgt", "pepcol", "stripped sequence"], ["mokapot protein group", "pepcol", "sc"],
+                   ["tgt", "pepcol", "mokapot protein group"], ["best peptide", "pepcol", "sc"],
+                   ["tgt", "pepcol", "best peptide"]]
+EXTRA_NAMES = ["decoy", "stripped sequence", "mokapot protein group", "best peptide", "proteinIds", "PSMId", "extra",
+               "sc2", "score", "peptide", "index", "level_0", "q-value"]
+# score presentations: value -> value * 2^k + off, stored with dtype; all exact (checked when drawn)
+SCORE_PRES = [("float64", -17, 1024), ("float64", 40, 0), ("float64", -60, 0), ("float64", 0, -5000), ("float64", 4, 2 ** 52),
+              ("float32", 0, 0), ("float32", 3, 0), ("int64", 3, 0), ("int64", 3, 2 ** 60), ("int64", 3, -(2 ** 62)),
+              ("int32", 3, 0), ("float64", 0, 0)]
+PREFIXES = ["rev_", "DECOY_", "XXX_", "decoy-", "d.", "##", "r", "decoy_decoy_"]
+INDEX_KINDS = ["perm", "offset", "reversed", "str", "neg", "float", "multi", "sparse"]
 
-def _picked_case(rng, mode, tags, fn="picked", wide=False, **kw):
-    fasta, tp, dp = gen_fasta(rng, mode, wide)
+
+def _is_colliding(c):
+    n = (c.get("pres") or {}).get("names")
+    return bool(n) and (n[0] in INTERNAL_NAMES or n[2] in INTERNAL_NAMES)
+
+
+def _pscores(c):
+    """the scores as the real code gets them (exact Fractions): presentation map applied to the canonical value;
+    assign_confidence(descs=[False]) ranks by the negated score"""
+    p = c.get("pres") or {}
+    k, off = p.get("smap", [0, 0])
+    sign = -1 if p.get("desc") is False else 1
+    f = Fraction(2) ** k
+    return [sign * (Fraction(r[2]) * f + off) for r in c["rows"]]
+
+
+def _score_array(vals, dtype):
+    """exact numpy array of the presented scores, or None if some value is not representable in dtype"""
+    import numpy as np
+    try:
+        if dtype.startswith("int"):
+            if any(v.denominator != 1 for v in vals):
+                return None
+            arr = np.array([int(v) for v in vals], dtype=dtype)
+            return arr if all(int(a) == v for a, v in zip(arr, vals)) else None
+        arr = np.array([float(v) for v in vals], dtype=dtype)
+        return arr if all(Fraction(float(a)) == v for a, v in zip(arr, vals)) else None
+    except (OverflowError, ValueError):
+        return None
+
+
+def _exact(s):
+    """a score read back from the real code as an exact number"""
+    import numpy as np
+    if isinstance(s, (int, np.integer)) and not isinstance(s, (bool, np.bool_)):
+        return Fraction(int(s))
+    return Fraction(float(s))
+
+
+def _draw_pres(rng, c, allow_dup=True):
+    """a drawn presentation of a picked_protein case: each facet is non-default with a moderate probability so that
+    a failing case shrinks to a single facet"""
+    p = {}
+    if rng.random() < 0.35:
+        p["names"] = rng.choice(HARMLESS_NAMES)
+    if rng.random() < 0.35:
+        names = p.get("names", DEFAULT_NAMES)
+        ext = [x for x in rng.sample(EXTRA_NAMES, rng.randint(1, 3)) if x not in names]
+        p["extra"] = [[x, rng.choice(["int", "str", "float", "bool"])] for x in ext]
+    if rng.random() < 0.35:
+        ncol = 3 + len(p.get("extra", []))
+        perm = list(range(ncol))
+        rng.shuffle(perm)
+        p["order"] = perm
+    if rng.random() < 0.45:
+        dt, k, off = rng.choice(SCORE_PRES)
+        c2 = dict(c, pres={"smap": [k, off]})
+        if _score_array(_pscores(c2), dt) is not None:
+            p["smap"], p["sdtype"] = [k, off], dt
+    if rng.random() < 0.3 and c["rows"]:
+        p["pdtype"] = rng.choice(["object", "str", "string", "arrow", "category"])
+    if rng.random() < 0.2:
+        p["tdtype"] = "boolean"         # pandas' nullable boolean; object / integer flags are not booleans (refused)
+    if rng.random() < 0.3:
+        p["rng"] = rng.choice(["int", "npint", "rs"])
+    if rng.random() < 0.25:
+        p["earlier"] = rng.choice(["reversed", "half", "same"])
+    if p:
+        c["pres"] = p
+    if rng.random() < 0.4:
+        kinds = INDEX_KINDS + (["dup", "dup"] if allow_dup and not c.get("ties") else [])
+        c["index"] = rng.choice(kinds)
+    return c
+
+
+def _pres_tags(c):
+    p = c.get("pres") or {}
+    t = []
+    if "names" in p:
+        t.append("names-colliding" if _is_colliding(c) else "names-other")
+    if "extra" in p:
+        t.append("extra-columns")
+    if "order" in p:
+        t.append("column-order")
+    if "sdtype" in p:
+        t.append("score-%s" % p["sdtype"])
+        if p["smap"] != [0, 0]:
+            t.append("score-map=2^%d%+d" % tuple(p["smap"]) if abs(p["smap"][1]) < 10 ** 6 else
+                     "score-map=2^%d+huge" % p["smap"][0])
+    for k, lab in (("pdtype", "peptide-"), ("tdtype", "target-"), ("rng", "rng-"), ("earlier", "earlier-call-")):
+        if k in p:
+            t.append(lab + str(p[k]))
+    if c.get("index"):
+        t.append("index-" + c["index"])
+    if c.get("fasta_args", {}).get("decoy_prefix", "decoy_") != "decoy_":
+        t.append("prefix-other")
+    return t
+
+
+def _reprefix(fasta, args, prefix):
+    """the same database with another decoy prefix"""
+    args["decoy_prefix"] = prefix
+    return "\n".join((">" + prefix + ln[len(">decoy_"):]) if ln.startswith(">decoy_") else ln
+                     for ln in fasta.split("\n"))
+
+
+def _picked_case(rng, mode, tags, fn="picked", wide=False, prefix=None, fasta_kw=None, **kw):
+    fasta, tp, dp = gen_fasta(rng, mode, wide, **(fasta_kw or {}))
     args = dict(FASTA_ARGS)
     if rng.random() < 0.2:
         args["missed_cleavages"] = 1
+    if prefix:
+        fasta = _reprefix(fasta, args, prefix)
     c = {"fn": fn, "fasta": fasta, "fasta_args": args, "rows": [], "seed": rng.randrange(1 << 30),
          "ties": bool(kw.get("ties")), "tags": [fn, "fasta=" + mode, "mc=%d" % args["missed_cleavages"]] + list(tags)}
     # the peptides the real digest produced (unique and shared), split by the kind of protein owning them
@@ -255,6 +422,110 @@ def _picked_case(rng, mode, tags, fn="picked", wide=False, **kw):
         tp = sorted(p for p, g in allp if not g.startswith(args["decoy_prefix"]))
         dp = sorted(p for p, g in allp if g.startswith(args["decoy_prefix"]))
     c["rows"] = gen_rows(rng, tp, dp, mode, **kw)
+    return c
+
+
+def _sanity_case(rng, mode, prefix=None):
+    """tables around the two sanity checks of picked_protein, empty and all-shared tables"""
+    kind = rng.choice(["unknown-many", "unknown-boundary", "empty", "all-shared-or-unknown", "no-decoy-rows"])
+    c = _picked_case(rng, mode, ["sanity", kind], unknown=0, prefix=prefix)
+    rows = c["rows"]
+    if kind == "empty":
+        rows = []
+    elif kind == "unknown-many":
+        for _ in range(rng.randint(1, 6)):
+            rows.append([rng.random() < 0.5, rand_pep(rng, 4, 7) + "W", rng.randint(-50, 50) / 4 + 1000, "?"])
+    elif kind == "unknown-boundary":
+        # exactly at / just around the thresholds: k unknown of n rows (10%), k unknown targets over nd decoy rows (5%)
+        base = [r for r in rows if r[3] != "?"]
+        rep = lambda src, j: [src[j % len(src)][0], src[j % len(src)][3] + "[+%d]" % j, 2000.0 + j, src[j % len(src)][3]]
+        dec = [r for r in base if not r[0]]
+        if base and (rng.random() < 0.6 or not dec):
+            n, k = rng.choice([(10, 1), (9, 1), (11, 1), (20, 2), (19, 2), (21, 2), (30, 3), (29, 3)])
+            rows = [rep(base, j) for j in range(n - k)]
+            flag = mode == "target-only"       # unknown decoys are not counted with a target-only FASTA
+            rows += [[flag, "QQQQQ%sW" % "ACDEF"[j], 999.5 - j, "?"] for j in range(k)]
+        elif dec:
+            nd, k = rng.choice([(19, 1), (20, 1), (21, 1), (40, 2), (39, 2), (41, 2)])
+            tg = [r for r in base if r[0]]
+            rows = [rep(dec, j) for j in range(nd)] + [rep(tg, j) for j in range(3 if tg else 0)]
+            rows += [[True, "QQQQQ%sW" % "ACDEF"[j], 999.5 - j, "?"] for j in range(k)]
+    elif kind == "all-shared-or-unknown":
+        rows = [r for r in rows if r[3] == "?"]     # filled in gen() from shared peptides
+        c["_want_shared"] = True
+    elif kind == "no-decoy-rows":
+        rows = [r for r in rows if r[0]]
+        if rng.random() < 0.5:
+            rows.append([True, "QQQQQQW", 999.5, "?"])
+    c["rows"] = rows
+    return c
+
+
+def _comma_names(rng, fasta):
+    """rename some proteins (and their decoys) to identifiers containing a comma"""
+    lines = fasta.split("\n")
+    names = [ln[1:].split(" ")[0] for ln in lines if ln.startswith(">") and not ln.startswith(">decoy_")]
+    ren = {}
+    for nm in names:
+        if rng.random() < 0.6 or not ren:
+            ren[nm] = rng.choice([nm[:1] + "," + nm[1:], nm + ",v2", "gene," + nm])
+    out = []
+    for ln in lines:
+        if ln.startswith(">"):
+            head, _, rest = ln[1:].partition(" ")
+            dec = head.startswith("decoy_")
+            nm = head[len("decoy_"):] if dec else head
+            nm = ren.get(nm, nm)
+            ln = ">" + ("decoy_" if dec else "") + nm + ((" " + rest) if rest else "")
+        out.append(ln)
+    return "\n".join(out)
+
+
+def _strip_col(rng, noise_alpha):
+    n = rng.randint(1, 6)
+    kind = rng.choice(["annotated", "annotated", "lowercol", "noise", "mixed"])
+    col = []
+    for _ in range(n):
+        p = rand_pep(rng, 2, 5)
+        if kind == "annotated":
+            col.append(decorate(rng, p))
+        elif kind == "lowercol":
+            col.append(rng.choice(["", "k.", "-.", "[+1]"]) + p.lower() + rng.choice(["", ".a", "(ox)", "-"]))
+        elif kind == "noise":
+            col.append("".join(rng.choice(noise_alpha) for _ in range(rng.randint(0, 9))))
+        else:
+            col.append(rng.choice([decorate(rng, p), p.lower(), "n" + p, ""]))
+    return col, kind
+
+
+def _conf_case(rng, mode, wide, prefix=None, fasta=None):
+    """a peptide table for assign_confidence(proteins=...): one row per peptide string, distinct scores"""
+    if fasta is None:
+        c = _picked_case(rng, mode, ["distinct-scores"], fn="confidence", wide=wide, unknown=0, nmax=40, prefix=prefix)
+    else:       # a second table over the same database
+        c = {"fn": "confidence", "fasta": fasta[0], "fasta_args": fasta[1], "rows": [], "tags": []}
+        P = _proteins(c)
+        pre = fasta[1]["decoy_prefix"]
+        allp = list(P.peptide_map.items()) + list(P.shared_peptides.items())
+        tp = sorted(q for q, g in allp if not g.startswith(pre))
+        dp = sorted(q for q, g in allp if g.startswith(pre))
+        c["rows"] = gen_rows(rng, tp, dp, mode, unknown=0, nmax=40)
+    # one row per peptide string (the peptide level is a roll-up by peptide string)
+    seen, rows = set(), []
+    for r in c["rows"]:
+        if r[1] not in seen and r[1] != "":
+            seen.add(r[1])
+            rows.append(r)
+    # targets mostly above decoys so that q-values below 1 occur; scores stay pairwise distinct
+    used = set()
+    for r in rows:
+        if r[0] and rng.random() < 0.85:
+            r[2] += 100.0
+        while r[2] in used:
+            r[2] += 0.125
+        used.add(r[2])
+    # the peptide-level file is written best score first: row labels = ranks
+    c["rows"] = sorted(rows, key=lambda r: -r[2])
     return c
 
 
@@ -268,20 +539,20 @@ def gen(ctx):
     cases.append({"fn": "strip", "col": ["A.B.C", "nABCc", "BL[+mod]AH", "A.B[1.1].C"], "tags": ["strip", "strip-fixed"]})
     cases.append({"fn": "strip", "col": [], "tags": ["strip", "strip-fixed"]})
     for k in range(600 if ctx.thorough else 150):
-        n = rng.randint(1, 6)
-        kind = rng.choice(["annotated", "annotated", "lowercol", "noise", "mixed"])
-        col = []
-        for _ in range(n):
-            p = rand_pep(rng, 2, 5)
-            if kind == "annotated":
-                col.append(decorate(rng, p))
-            elif kind == "lowercol":
-                col.append(rng.choice(["", "k.", "-.", "[+1]"]) + p.lower() + rng.choice(["", ".a", "(ox)", "-"]))
-            elif kind == "noise":
-                col.append("".join(rng.choice(ALPHA + "Bz") for _ in range(rng.randint(0, 9))))
-            else:
-                col.append(rng.choice([decorate(rng, p), p.lower(), "n" + p, ""]))
+        col, kind = _strip_col(rng, ALPHA + "Bz")
         cases.append({"fn": "strip", "col": col, "tags": ["strip", "strip-" + kind]})
+    # white-box review: other dtypes / row labels of the argument, digits and other symbols outside brackets
+    rng = ctx.sub("strip-presented")
+    for k in range(400 if ctx.thorough else 100):
+        col, kind = _strip_col(rng, ALPHA + "Bz19+ _{<*")
+        c = {"fn": "strip", "col": col, "tags": ["strip", "strip-" + kind, "presented"]}
+        if rng.random() < 0.6:
+            c["dtype"] = rng.choice(["str", "string", "arrow", "category"])
+            c["tags"].append("dtype-" + c["dtype"])
+        if rng.random() < 0.5:
+            c["index"] = rng.choice(["perm", "str", "offset", "dup", "neg"])
+            c["tags"].append("index-" + c["index"])
+        cases.append(c)
     # ---- picked_protein
     rng = ctx.sub("picked")
     npk = 700 if ctx.thorough else 160
@@ -303,38 +574,46 @@ def gen(ctx):
     # ---- sanity errors / degenerate tables
     rng = ctx.sub("errors")
     for k in range(240 if ctx.thorough else 70):
+        cases.append(_sanity_case(rng, modes[k % len(modes)]))
+    # ---- white-box review: the same kinds of tables in drawn presentations (column names / order / extra columns,
+    # score dtype and magnitude, peptide / target dtype, row labels, rng argument, an earlier call on the same
+    # Proteins object, other decoy prefixes)
+    rng = ctx.sub("presented")
+    for k in range(1500 if ctx.thorough else 400):
         mode = modes[k % len(modes)]
-        kind = rng.choice(["unknown-many", "unknown-boundary", "empty", "all-shared-or-unknown", "no-decoy-rows"])
-        c = _picked_case(rng, mode, ["sanity", kind], unknown=0)
-        rows = c["rows"]
-        if kind == "empty":
-            rows = []
-        elif kind == "unknown-many":
-            for _ in range(rng.randint(1, 6)):
-                rows.append([rng.random() < 0.5, rand_pep(rng, 4, 7) + "W", rng.randint(-50, 50) / 4 + 1000, "?"])
-        elif kind == "unknown-boundary":
-            # exactly at / just around the thresholds: k unknown of n rows (10%), k unknown targets over nd decoy rows (5%)
-            base = [r for r in rows if r[3] != "?"]
-            rep = lambda src, j: [src[j % len(src)][0], src[j % len(src)][3] + "[+%d]" % j, 2000.0 + j, src[j % len(src)][3]]
-            dec = [r for r in base if not r[0]]
-            if base and (rng.random() < 0.6 or not dec):
-                n, k = rng.choice([(10, 1), (9, 1), (11, 1), (20, 2), (19, 2), (21, 2), (30, 3), (29, 3)])
-                rows = [rep(base, j) for j in range(n - k)]
-                flag = mode == "target-only"       # unknown decoys are not counted with a target-only FASTA
-                rows += [[flag, "QQQQQ%sW" % "ACDEF"[j], 999.5 - j, "?"] for j in range(k)]
-            elif dec:
-                nd, k = rng.choice([(19, 1), (20, 1), (21, 1), (40, 2), (39, 2), (41, 2)])
-                tg = [r for r in base if r[0]]
-                rows = [rep(dec, j) for j in range(nd)] + [rep(tg, j) for j in range(3 if tg else 0)]
-                rows += [[True, "QQQQQ%sW" % "ACDEF"[j], 999.5 - j, "?"] for j in range(k)]
-        elif kind == "all-shared-or-unknown":
-            rows = [r for r in rows if r[3] == "?"]     # filled below from shared peptides
-            c["_want_shared"] = True
-        elif kind == "no-decoy-rows":
-            rows = [r for r in rows if r[0]]
-            if rng.random() < 0.5:
-                rows.append([True, "QQQQQQW", 999.5, "?"])
-        c["rows"] = rows
+        prefix = rng.choice(PREFIXES) if rng.random() < 0.35 else None
+        r = rng.random()
+        if r < 0.15:
+            c = _sanity_case(rng, mode, prefix=prefix)
+        elif r < 0.7:
+            c = _picked_case(rng, mode, ["distinct-scores"], wide=(k % 4 == 3), prefix=prefix)
+        elif r < 0.85:
+            c = _picked_case(rng, mode, ["tie-stream"], ties=True, prefix=prefix)
+        else:
+            c = _picked_case(rng, mode, ["lower-case-column", "distinct-scores"], lower=True, prefix=prefix)
+        c["_pres"] = rng.randrange(1 << 30)
+        c["tags"].append("presented")
+        cases.append(c)
+    # target / score column named like an internal column of picked_protein
+    rng = ctx.sub("colliding")
+    for k in range(24 if ctx.thorough else 8):
+        c = _picked_case(rng, modes[k % len(modes)], ["distinct-scores"])
+        c["pres"] = {"names": COLLIDING_NAMES[k % len(COLLIDING_NAMES)]}
+        cases.append(c)
+    # protein identifiers containing a comma (group names are ', '-joined identifiers)
+    rng = ctx.sub("comma")
+    for k in range(20 if ctx.thorough else 6):
+        c = _picked_case(rng, ["mirror", "partial", "target-only"][k % 3], ["distinct-scores", "comma-in-protein-name"])
+        c["fasta"] = _comma_names(rng, c["fasta"])
+        cases.append(c)
+    # larger tables: 40..90 proteins, hundreds of rows
+    rng = ctx.sub("large")
+    for k in range(10 if ctx.thorough else 3):
+        mode = ["mirror", "target-only", "regroup", "partial"][k % 4]
+        c = _picked_case(rng, mode, ["distinct-scores", "large"], wide=True, nmax=rng.choice([300, 700, 1500]),
+                         fasta_kw={"nprot": rng.randint(40, 90), "npool": rng.randint(100, 220)},
+                         prefix=rng.choice(PREFIXES) if k % 2 else None, reps=[2, 3, 4, 5, 6, 8])
+        c["_pres"] = rng.randrange(1 << 30)
         cases.append(c)
     for c in cases:
         if c.pop("_want_shared", False):
@@ -349,27 +628,66 @@ def gen(ctx):
                 while r[2] in seen:
                     r[2] += 0.125
                 seen.add(r[2])
+    # presentations are drawn last: whether a score presentation is exact depends on the final rows
+    import random as _random
+    for c in cases:
+        if "_pres" in c:
+            _draw_pres(_random.Random(c.pop("_pres")), c)
+        if c["fn"] == "picked":
+            c["tags"] = c["tags"] + [t for t in _pres_tags(c) if t not in c["tags"]]
     # ---- through assign_confidence
     rng = ctx.sub("confidence")
     for k in range(80 if ctx.thorough else 20):
         mode = ["mirror", "mirror", "regroup", "partial", "target-only"][k % 5]
-        c = _picked_case(rng, mode, ["distinct-scores"], fn="confidence", wide=(k % 3 != 2), unknown=0, nmax=40)
-        # one row per peptide string (the peptide level is a roll-up by peptide string)
-        seen, rows = set(), []
-        for r in c["rows"]:
-            if r[1] not in seen and r[1] != "":
-                seen.add(r[1])
-                rows.append(r)
-        # targets mostly above decoys so that q-values below 1 occur; scores stay pairwise distinct
-        used = set()
-        for r in rows:
-            if r[0] and rng.random() < 0.85:
-                r[2] += 100.0
-            while r[2] in used:
-                r[2] += 0.125
-            used.add(r[2])
-        # the peptide-level file is written best score first: row labels = ranks
-        c["rows"] = sorted(rows, key=lambda r: -r[2])
+        cases.append(_conf_case(rng, mode, wide=(k % 3 != 2)))
+    # white-box review: the same through drawn presentations of the run (file format, reader, direction, chunk size,
+    # a second collection, leftovers in the destination directory, decoys=False, rng argument, row order of the file,
+    # score resolution, decoy prefix)
+    rng = ctx.sub("confidence-presented")
+    for k in range(320 if ctx.thorough else 100):
+        mode = ["mirror", "mirror", "regroup", "partial", "target-only"][k % 5]
+        prefix = rng.choice(PREFIXES) if rng.random() < 0.3 else None
+        c = _conf_case(rng, mode, wide=(k % 3 != 2), prefix=prefix)
+        n = len(c["rows"])
+        if n == 0:          # a collection without any PSM never reaches the protein level (C03 / C19)
+            continue
+        p = {}
+        if rng.random() < 0.12:
+            p["fmt"] = "parquet"
+        if rng.random() < 0.4:
+            p["via"] = "read_pin"
+        if rng.random() < 0.3:
+            p["desc"] = False
+        if rng.random() < 0.5:
+            p["chunk"] = max(1, rng.choice([1, 2, 3, 5, 7, n - 1, n, n + 1, n // 2]))
+        if rng.random() < 0.3:
+            o = _conf_case(rng, mode, wide=True, fasta=(c["fasta"], c["fasta_args"]))
+            # the other collection must be accepted (its failure would abort the whole call): known peptides only,
+            # at least one of them unique
+            P = _proteins(c)
+            known = set(P.peptide_map) | set(P.shared_peptides)
+            orows = [r for r in o["rows"] if r[3] in known or (not r[0] and not P.has_decoys)]
+            which = rng.choice([0, 1])
+            if any(r[3] in P.peptide_map for r in orows):
+                p["other"], p["which"] = orows, which
+        if rng.random() < 0.3:
+            p["leftover"] = rng.choice(["results", "junk", "table"])
+        if rng.random() < 0.25:
+            p["decoys"] = False
+        if rng.random() < 0.3:
+            p["rng"] = rng.choice(["int", "npint"])
+        if rng.random() < 0.3:
+            p["smap"] = rng.choice([[-17, 1024], [20, 0], [-40, 0], [0, -5000]])
+        if rng.random() < 0.2:
+            p["workers"] = 3
+        if rng.random() < 0.5:
+            rng.shuffle(c["rows"])
+            c["tags"].append("file-order-shuffled")
+        if p:
+            c["pres"] = p
+        c["tags"] += ["presented"] + ["%s=%s" % (f, p[f]) for f in ("fmt", "via", "desc", "leftover", "decoys", "rng", "workers") if f in p] \
+            + (["chunked"] if "chunk" in p else []) + (["two-collections"] if "other" in p else []) \
+            + (["score-map"] if "smap" in p else []) + (["prefix-other"] if prefix else [])
         cases.append(c)
     return cases
 
@@ -402,7 +720,9 @@ class _Record:
     def __init__(self, pos=None):
         self.order = None
         self.dm = None
-        self.pos = pos          # row label -> row position, when the table does not carry the default 0..n-1 index
+        self.orders = []        # one per groupby_max call / match_decoy call, in call order
+        self.dms = []
+        self.pos = pos          # (how, score column, key -> row position) when the table does not carry the default index
 
     def __enter__(self):
         import pandas as pd
@@ -415,12 +735,22 @@ class _Record:
         def sample(df, *a, **k):
             out = rec.orig_sample(df, *a, **k)
             if "decoy" in df.columns and k.get("frac", a[1] if len(a) > 1 else None) == 1:
-                rec.order = [int(v) if rec.pos is None else rec.pos[v] for v in out.index]
+                try:
+                    if rec.pos is None:
+                        rec.order = [int(v) for v in out.index]
+                    elif rec.pos[0] == "score":
+                        rec.order = [rec.pos[2][_exact(v)] for v in out[rec.pos[1]]]
+                    else:
+                        rec.order = [rec.pos[2][v] for v in out.index]
+                except Exception:       # e.g. a score column overwritten by a colliding name: no order to record
+                    rec.order = []
+                rec.orders.append(rec.order)
             return out
 
         def match(*a, **k):
             out = rec.orig_match(*a, **k)
             rec.dm = [[str(d), str(t)] for d, t in out.items()]
+            rec.dms.append(rec.dm)
             return out
 
         pd.DataFrame.sample = sample
@@ -446,7 +776,8 @@ def _canon_group(g):
 
 
 def _index_labels(kind, n, seed):
-    """unique row labels for the peptide table handed to picked_protein (None: the default RangeIndex)"""
+    """row labels for the peptide table handed to picked_protein (None: the default RangeIndex); unique except for
+    kind 'dup' (a table concatenated from several tables without ignore_index)"""
     if not kind or kind == "range":
         return None
     import random
@@ -463,7 +794,103 @@ def _index_labels(kind, n, seed):
         lab = ["r%03d" % j for j in range(n)]
         r.shuffle(lab)
         return lab
+    if kind == "neg":
+        lab = [j - n // 2 for j in range(n)]
+        r.shuffle(lab)
+        return lab
+    if kind == "float":
+        lab = [j + 0.5 for j in range(n)]
+        r.shuffle(lab)
+        return lab
+    if kind == "sparse":                       # what is left of 0..3n-1 after filtering rows out
+        return sorted(r.sample(range(3 * n + 1), n))
+    if kind == "multi":                        # (file, row) labels
+        return [[j % 3, j // 3] for j in range(n)]
+    if kind == "dup":                          # three tables of n/3 rows, each labelled from 0
+        m = max(1, (n + 2) // 3)
+        return [j % m for j in range(n)]
     raise ValueError(kind)
+
+
+def _frame(c):
+    """the peptide table of a picked_protein case in its presentation -> (DataFrame, [target, peptide, score] names)"""
+    import numpy as np
+    import pandas as pd
+    rows = c["rows"]
+    p = c.get("pres") or {}
+    tn, pn, sn = p.get("names", DEFAULT_NAMES)
+    sarr = _score_array(_pscores(c), p.get("sdtype", "float64"))
+    if sarr is None:
+        raise AssertionError("harness: score presentation is not exact")
+    pd_kind = p.get("pdtype")
+    peps = [r[1] for r in rows]
+    if not rows:
+        pcol = pd.Series(peps, dtype=object)
+    elif pd_kind == "object":
+        pcol = pd.Series(peps, dtype=object)
+    elif pd_kind == "string":
+        pcol = pd.Series(peps, dtype="string[python]")
+    elif pd_kind == "arrow":
+        pcol = pd.Series(peps, dtype="string[pyarrow]")
+    elif pd_kind == "category":
+        pcol = pd.Series(peps, dtype=object).astype("category")
+    else:
+        pcol = pd.Series(peps)              # pandas' default string dtype
+    tcol = np.array([bool(r[0]) for r in rows], dtype=bool)
+    if p.get("tdtype") == "boolean":
+        tcol = pd.array(tcol, dtype="boolean")
+    elif p.get("tdtype") == "object":
+        tcol = np.array([bool(r[0]) for r in rows], dtype=object)
+    cols = [(tn, tcol), (pn, pcol.values if rows else pcol), (sn, sarr)]
+    n = len(rows)
+    for name, kind in p.get("extra", []):
+        if kind == "int":
+            v = np.arange(n)[::-1].copy()
+        elif kind == "float":
+            v = np.linspace(-1.0, 1.0, n) if n else np.array([], dtype=float)
+        elif kind == "bool":
+            v = np.array([j % 2 == 0 for j in range(n)], dtype=bool)
+        else:
+            v = np.array(["x%d" % (j % 5) for j in range(n)], dtype=object)
+        cols.append((name, v))
+    order = p.get("order") or list(range(len(cols)))
+    cols = [cols[j] for j in order if j < len(cols)] + [cols[j] for j in range(len(cols)) if j not in order]
+    df = pd.DataFrame({k: v for k, v in cols})
+    labels = _index_labels(c.get("index"), n, c["seed"])
+    if labels is not None:
+        if c.get("index") == "multi":
+            df.index = pd.MultiIndex.from_tuples([tuple(x) for x in labels], names=["file", "row"]) if n else df.index
+        else:
+            df.index = pd.Index(labels)
+    return df, [tn, pn, sn]
+
+
+def _snapshot(P):
+    return (dict(P.peptide_map), dict(P.shared_peptides), dict(P.protein_map), P.has_decoys, P.decoy_prefix)
+
+
+def _frame_changed(before, after):
+    if list(before.columns) != list(after.columns):
+        return "columns %r -> %r" % (list(before.columns), list(after.columns))
+    if not before.index.equals(after.index):
+        return "row labels"
+    for col in before.columns:
+        if str(before[col].dtype) != str(after[col].dtype):
+            return "dtype of %r: %s -> %s" % (col, before[col].dtype, after[col].dtype)
+        if list(before[col]) != list(after[col]):
+            return "values of %r" % (col,)
+    return None
+
+
+def _rng_arg(kind, seed):
+    import numpy as np
+    if kind == "int":
+        return int(seed)
+    if kind == "npint":
+        return np.int64(seed)
+    if kind == "rs":
+        return np.random.RandomState(seed % (1 << 32))
+    return np.random.default_rng(seed)
 
 
 def _run_picked(c):
@@ -474,81 +901,157 @@ def _run_picked(c):
     import numpy as np
     import pandas as pd
     from mokapot.picked_protein import picked_protein
-    P = _proteins(c)
+    P = copy.deepcopy(_proteins(c))     # a Proteins object of its own: nothing a run leaves on it reaches another run
     rows = c["rows"]
-    den = exact_den([r[2] for r in rows])
-    df = pd.DataFrame({"tgt": np.array([bool(r[0]) for r in rows], dtype=bool),
-                       "pepcol": pd.Series([r[1] for r in rows], dtype=object if not rows else None),
-                       "sc": np.array([float(r[2]) for r in rows], dtype=float)})
+    p = c.get("pres") or {}
+    ps = _pscores(c)
+    den = exact_den(ps)
+    df, (tn, pn, sn) = _frame(c)
+    before = df.copy(deep=True)
+    snap = _snapshot(P) if P is not None else None
     # the caller's row labels: a peptide table that was sorted or filtered without reset_index keeps its old labels
-    labels = _index_labels(c.get("index"), len(rows), c["seed"])
     pos = None
-    if labels is not None:
-        df.index = pd.Index(labels)
-        pos = {v: j for j, v in enumerate(labels)}
+    if c.get("index") == "dup":
+        pos = ("score", sn, {_exact(v): j for j, v in enumerate(df[sn])})
+    elif c.get("index"):
+        pos = ("label", None, {(tuple(v) if isinstance(v, (list, tuple)) else v): j for j, v in enumerate(df.index)})
+    # an earlier call with the same Proteins object (another table): nothing of it may survive into this call
+    if p.get("earlier") and P is not None and rows:
+        try:
+            kind = p["earlier"]
+            e = (df.iloc[::-1] if kind == "reversed" else df.iloc[: max(1, len(df) // 2)] if kind == "half" else df).copy()
+            if kind == "reversed":          # other decoy peptides than in the observed call
+                e[tn] = ~e[tn].astype(bool)
+            np.random.seed((c["seed"] + 1) % (1 << 31))
+            picked_protein(e, tn, pn, sn, P, _rng_arg(p.get("rng"), c["seed"] + 1))
+        except Exception:
+            pass
     np.random.seed(c["seed"] % (1 << 31))
     with _Record(pos) as rec:
         def go():
-            out = picked_protein(df, "tgt", "pepcol", "sc", P, np.random.default_rng(c["seed"]))
+            out = picked_protein(df, tn, pn, sn, P, _rng_arg(p.get("rng"), c["seed"]))
             ent = []
             for g, bp, ss, s, t in zip(out["mokapot protein group"], out["best peptide"], out["stripped sequence"],
-                                       out["sc"], out["tgt"]):
-                ent.append([_canon_group(g), str(bp), str(ss), int(Fraction(float(s)) * den), bool(t)])
+                                       out[sn], out[tn]):
+                ent.append([_canon_group(g), str(bp), str(ss), int(_exact(s) * den), bool(t)])
             return sorted(ent)
         res = call_impl(go)
+    if res[0] == "ok":
+        ch = _frame_changed(before, df)
+        if ch is None and snap is not None and _snapshot(P) != snap:
+            ch = "the Proteins object"
+        if ch is not None:
+            res = ("err", "InputModified: " + ch)
     out = {"P": P, "dm": rec.dm or [], "order": rec.order or [], "result": res, "den": den}
     _CACHE[k] = out
     return out
 
 
+def _conf_table(rows, scores, tag):
+    import pandas as pd
+    n = len(rows)
+    return pd.DataFrame({"SpecId": ["%sid%d" % (tag, j) for j in range(n)], "Label": [1 if r[0] else -1 for r in rows],
+                         "ScanNr": list(range(1, n + 1)), "ExpMass": [100.0 + j for j in range(n)],
+                         "Peptide": [r[1] for r in rows], "Proteins": ["x"] * n,
+                         "feat": [float(v) for v in scores]})
+
+
+def _snap(x, ps):
+    """scores travel through delimited text inside assign_confidence and pandas' default float parser is not
+    round-trip exact (1 ulp): a reported score within 2^-40 (relative) of a score of the table is that score"""
+    if not ps:
+        return x
+    best = min(ps, key=lambda v: abs(v - x))
+    return best if abs(best - x) <= abs(best) * Fraction(1, 2 ** 40) else x
+
+
 def _run_confidence(c):
-    """peptide table -> OnDiskPsmDataset -> assign_confidence(proteins=...) -> targets/decoys.proteins"""
+    """peptide table -> PSM file -> dataset -> assign_confidence(proteins=...) -> targets/decoys.proteins.
+    Presentation (c['pres']): file format, the reader (hand-built OnDiskPsmDataset / read_pin), descs, the confidence
+    chunk size, a second collection with its own prefix processed before or after the observed one, files left in
+    the destination directory, decoys=False, the rng argument."""
     k = _key(c)
     if k in _CACHE:
         return _CACHE[k]
     import numpy as np
     import pandas as pd
+    import mokapot
     from mokapot import OnDiskPsmDataset, assign_confidence
-    P = _proteins(c)
+    from .. import brewlib
+    P = copy.deepcopy(_proteins(c))
+    p = c.get("pres") or {}
     rows = c["rows"]
-    den = exact_den([r[2] for r in rows])
-    n = len(rows)
+    sign = -1 if p.get("desc") is False else 1
+    ps = _pscores(c)                                  # effective (ranking) scores
+    den = exact_den(ps)
+    raw = [sign * v for v in ps]                      # what the caller passes as scores
+    fmt = p.get("fmt", "tsv")
     d = Path(tempfile.mkdtemp(prefix="conf_", dir=_tmpdir()))
-    df = pd.DataFrame({"SpecId": ["id%d" % j for j in range(n)], "Label": [1 if r[0] else -1 for r in rows],
-                       "ScanNr": list(range(1, n + 1)), "ExpMass": [100.0 + j for j in range(n)],
-                       "Peptide": [r[1] for r in rows], "Proteins": ["x"] * n,
-                       "feat": [float(r[2]) for r in rows]})
-    pin = d / "in.pin"
-    df.to_csv(pin, sep="\t", index=False)
+    out_dir = d / "out"
+    out_dir.mkdir()
+    colls = [(rows, raw, "")]
+    if p.get("other") is not None:
+        o = p["other"]
+        colls.insert(0 if p.get("which", 0) == 1 else 1, (o, [sign * Fraction(r[2]) for r in o], "o"))
+    observed = [j for j, x in enumerate(colls) if x[0] is rows][0]
+    prefixes = [None] if len(colls) == 1 else ["collA", "collB"]
     np.random.seed(c["seed"] % (1 << 31))
     import mokapot.confidence as mconf
     orig_peps = mconf.peps_from_scores
     # PEPs are outside C15 and the spline fit refuses tables this small: constant stub
     mconf.peps_from_scores = lambda scores, targets, *a, **k: np.full(len(scores), 0.5)
+    left = p.get("leftover")
+    if left:
+        pre = (prefixes[observed] + ".") if prefixes[observed] else ""
+        head = "mokapot protein group\tbest peptide\tstripped sequence\tscore\tq-value\tposterior_error_prob\n"
+        for nm in ("targets.proteins", "decoys.proteins"):
+            (out_dir / (pre + nm)).write_text(head + "OLDPROT\tK.OLDPEPK.A\tOLDPEPK\t99999.0\t0.0\t0.0\n" if left != "junk" else "junk\n")
+        (out_dir / ("proteins" + (".parquet" if fmt == "parquet" else ".pin"))).write_text(
+            "junk\n" if left != "table" else "PSMId\tLabel\tpeptide\tproteinIds\tscore\nold\tTrue\tK.OLDPEPK.A\tx\t99999.0\n")
     with _Record() as rec:
         def go():
-            ds = OnDiskPsmDataset(pin, columns=list(df.columns), target_column="Label", spectrum_columns=["ScanNr", "ExpMass"],
-                                  peptide_column="Peptide", protein_column="Proteins", feature_columns=["feat"],
-                                  metadata_columns=["SpecId", "Label", "ScanNr", "ExpMass", "Peptide", "Proteins"],
-                                  metadata_column_types=["string", "int", "int", "float", "string", "string"],
-                                  level_columns=["Peptide"], filename_column=None, scan_column=None,
-                                  specId_column="SpecId", calcmass_column=None, expmass_column=None, rt_column=None,
-                                  charge_column=None, spectra_dataframe=df[["ScanNr", "ExpMass", "Label"]])
-            sc = np.array([float(r[2]) for r in rows])
-            assign_confidence([ds], scores=[sc], descs=[True], dest_dir=d, prefixes=[None], decoys=True,
-                              proteins=P, rng=np.random.default_rng(c["seed"]), peps_error=False,
-                              max_workers=1)
+            dss = []
+            for j, (rws, sc, tag) in enumerate(colls):
+                df = _conf_table(rws, sc, tag)
+                path = d / ("in%d%s" % (j, ".parquet" if fmt == "parquet" else ".pin"))
+                if fmt == "parquet":
+                    df.to_parquet(path, index=False)
+                else:
+                    df.to_csv(path, sep="\t", index=False)
+                if p.get("via", "ondisk") == "read_pin" or fmt == "parquet":
+                    ds = mokapot.read_pin([path], max_workers=1)[0]
+                else:
+                    ds = OnDiskPsmDataset(path, columns=list(df.columns), target_column="Label", spectrum_columns=["ScanNr", "ExpMass"],
+                                          peptide_column="Peptide", protein_column="Proteins", feature_columns=["feat"],
+                                          metadata_columns=["SpecId", "Label", "ScanNr", "ExpMass", "Peptide", "Proteins"],
+                                          metadata_column_types=["string", "int", "int", "float", "string", "string"],
+                                          level_columns=["Peptide"], filename_column=None, scan_column=None,
+                                          specId_column="SpecId", calcmass_column=None, expmass_column=None, rt_column=None,
+                                          charge_column=None, spectra_dataframe=df[["ScanNr", "ExpMass", "Label"]])
+                dss.append(ds)
+            with brewlib.Chunking(confidence=p.get("chunk")):
+                assign_confidence(dss, scores=[np.array([float(v) for v in sc], dtype=float) for _, sc, _ in colls],
+                                  descs=[sign == 1] * len(colls), dest_dir=out_dir, prefixes=prefixes,
+                                  decoys=p.get("decoys", True), proteins=P, rng=_rng_arg(p.get("rng"), c["seed"]),
+                                  peps_error=False, max_workers=p.get("workers", 1))
             ent = []
-            for nm, tflag in (("targets.proteins", True), ("decoys.proteins", False)):
-                t = pd.read_csv(d / nm, sep="\t", keep_default_na=False)
+            pre = (prefixes[observed] + ".") if prefixes[observed] else ""
+            files = [("targets.proteins", True)] + ([("decoys.proteins", False)] if p.get("decoys", True) else [])
+            for nm, tflag in files:
+                t = pd.read_csv(out_dir / (pre + nm), sep="\t", keep_default_na=False)
                 for _, r in t.iterrows():
                     ent.append([[str(r["mokapot protein group"]) or NAN, str(r["best peptide"]), str(r["stripped sequence"]),
-                                 int(Fraction(float(r["score"])) * den), tflag], Fraction(float(r["q-value"]))])
+                                 int(_snap(Fraction(float(r["score"])), ps) * den), tflag], Fraction(float(r["q-value"]))])
+            if not p.get("decoys", True) and (out_dir / (pre + "decoys.proteins")).exists() and not left:
+                raise AssertionError("decoys.proteins written with decoys=False")
             return sorted(ent, key=lambda e: e[0])
         res = call_impl(go)
     mconf.peps_from_scores = orig_peps
     shutil.rmtree(d, ignore_errors=True)
-    out = {"P": P, "dm": rec.dm or [], "order": rec.order or [], "result": res, "den": den}
+    # one picked_protein call per collection, in list order
+    order = rec.orders[observed] if len(rec.orders) > observed else []
+    dm = rec.dms[observed] if len(rec.dms) > observed else []
+    out = {"P": P, "dm": dm, "order": order, "result": res, "den": den}
     _CACHE[k] = out
     return out
 
@@ -566,17 +1069,27 @@ def _enc_proteins(P):
     return " ".join([lib.lst(pm, ps), lib.lst(sh, lib.s), lib.lst(prm, ps), lib.b(P.has_decoys), lib.s(P.decoy_prefix)])
 
 
+def _model_rows(c):
+    """rows in the order the model numbers them, with exact integer scores: a picked_protein case keeps the table
+    order; through assign_confidence the peptide-level file is written best (effective) score first and read back with
+    labels 0..n-1"""
+    ps = _pscores(c)
+    den = exact_den(ps)
+    rows = [[bool(r[0]), r[1], int(v * den), j] for j, (r, v) in enumerate(zip(c["rows"], ps))]
+    if c["fn"] == "confidence":
+        rows.sort(key=lambda x: -x[2])
+    return rows
+
+
 def encode(c):
     if c["fn"] == "strip":
         return "c15.strip_all " + lib.lst(c["col"], lib.s)
     r = _run(c)
     P = r["P"]
-    den = r["den"]
-    rows = c["rows"]
-    row = lambda x: " ".join([lib.b(x[0]), lib.s(x[1]), lib.z(int(Fraction(x[2]) * den))])
+    row = lambda x: " ".join([lib.b(x[0]), lib.s(x[1]), lib.z(x[2])])
     entry = "c15.picked_q " if c["fn"] == "confidence" else "c15.picked "
     return entry + " ".join([_enc_proteins(P), lib.lst(r["dm"], lib.pair(lib.s, lib.s)), lib.lst(r["order"]),
-                             lib.lst(rows, row)])
+                             lib.lst(_model_rows(c), row)])
 
 
 def _dec_entry(t):
@@ -594,17 +1107,34 @@ def decode(c, t):
 
 
 # ----------------------------------------------------------------------------- implementation side
-def _impl_strip(col):
+def _impl_strip(col, dtype=None, index=None):
+    """strip_peptides on a Series of the given dtype / row labels; the answer must carry the labels of its argument"""
     import pandas as pd
     from mokapot.picked_protein import strip_peptides
-    return [str(v) for v in strip_peptides(pd.Series(col, dtype=object))]
+    if dtype in (None, "object") or not col:
+        ser = pd.Series(col, dtype=object)
+    elif dtype == "category":
+        ser = pd.Series(col, dtype=object).astype("category")
+    elif dtype == "str":
+        ser = pd.Series(col)
+    else:
+        ser = pd.Series(col, dtype={"string": "string[python]", "arrow": "string[pyarrow]"}[dtype])
+    if index and col:
+        ser.index = pd.Index(_index_labels(index, len(col), len(col)))
+    before = list(ser)
+    out = strip_peptides(ser)
+    if list(ser) != before:
+        return ["<argument modified>"]
+    if len(out) == len(ser) and not out.index.equals(ser.index):
+        return ["<row labels changed>"]
+    return [str(v) for v in out]
 
 
 def impl(c):
     if c["fn"] == "strip":
         if not c["col"]:
             return _impl_strip_empty()
-        r = call_impl(_impl_strip, c["col"])
+        r = call_impl(_impl_strip, c["col"], c.get("dtype"), c.get("index"))
         return r[1] if r[0] == "ok" else r
     return _run(c)["result"]
 
@@ -619,17 +1149,44 @@ def pair_key(P, group):
     return P.protein_map.get(first, first)
 
 
+def first_member(P, group):
+    """the first protein of a group, by the identifiers of the database (a group name is its identifiers joined by
+    ', '; an identifier that itself contains a comma stays whole)"""
+    names = set(P.protein_map.keys()) | set(P.protein_map.values())
+    best = None
+    for n in names:
+        if (group == n or group.startswith(n + ", ")) and (best is None or len(n) > len(best)):
+            best = n
+    return best if best is not None else group.split(",")[0]
+
+
+def spec_pair_key(P, group):
+    """the target/decoy pair a group belongs to (the property's notion, independent of how the code splits names)"""
+    f = first_member(P, group)
+    return P.protein_map.get(f, f)
+
+
+def _has_comma(c):
+    return any(ln.startswith(">") and "," in ln[1:].split(" ")[0] for ln in c["fasta"].split("\n"))
+
+
 def _close(a, b):
     return abs(a - b) <= TOL * abs(b)
 
 
-def same(c, m, i):
-    if c["fn"] == "strip":
-        return list(m) == list(i)
+def _observed_model(c, m):
+    """what of the model's answer the observation shows: with decoys=False only targets.proteins is written"""
+    if c["fn"] == "confidence" and m[0] == "ok" and (c.get("pres") or {}).get("decoys") is False:
+        return ("ok", [e for e in m[1] if e[0][4]])
+    return m
+
+
+def _same_model(c, m, i):
     if m[0] != i[0]:
         return False
     if m[0] != "ok":
         return m[1] == i[1]
+    m = _observed_model(c, m)
     if c["fn"] == "confidence":
         if [e[0] for e in m[1]] != [e[0] for e in i[1]]:
             return False
@@ -640,6 +1197,36 @@ def same(c, m, i):
         ki = sorted((pair_key(P, e[0]), e[3]) for e in i[1])
         return km == ki
     return [list(e) for e in m[1]] == [list(e) for e in i[1]]
+
+
+def same(c, m, i):
+    if c["fn"] == "strip":
+        return list(m) == list(i)
+    if not _same_model(c, m, i):
+        return False
+    # agreement with the model is not enough where the comparison is coarse (tie stream: pair -> score) or the model
+    # follows the code by construction (how a group name is split): the property itself must hold on the answer
+    return oracle(c, i) is None
+
+
+def finding_key(c, m, i):
+    """structural key of a disagreement that belongs to a known finding (known_findings.json): the input class AND
+    the symptom must match"""
+    if c["fn"] == "strip":
+        return None
+    p = c.get("pres") or {}
+    if _is_colliding(c):
+        return "picked_protein:column-name-collides-with-internal-column"
+    if c["fn"] == "picked" and c.get("index") == "dup" and i[0] == "ok" and (m is None or m[0] == "ok"):
+        # every row that shares its label with a winning row is returned as well
+        if m is None or (len(i[1]) > len(m[1]) and all(e in i[1] for e in m[1])):
+            return "picked_protein:repeated-row-labels"
+    if c["fn"] == "confidence" and p.get("fmt") == "parquet" and i[0] == "err" and i[1] == "ValueError" \
+            and (m is None or m[0] == "ok"):
+        return "assign_confidence:proteins-with-parquet-input"
+    if _has_comma(c) and i[0] == "ok" and (m is None or _same_model(c, m, i)):
+        return "picked_protein:protein-identifier-with-comma"
+    return None
 
 
 def nontrivial(c):
@@ -672,8 +1259,11 @@ def oracle(c, i):
         return None
     r = _run(c)
     P, dm = r["P"], r["dm"]
+    pres = c.get("pres") or {}
     if P is None or i[0] != "ok":
         if i[0] == "err":
+            if str(i[1]).startswith("InputModified"):
+                return f"the call changed its arguments ({i[1][15:]}): the caller's peptide table / Proteins object must stay as they were"
             # a table whose every row maps to a protein group must be accepted
             st = spec_strip_col([x[1] for x in c["rows"]])
             if c["rows"] and P is not None and all(_group_of(P, dm, s) is not None for s in st):
@@ -681,23 +1271,24 @@ def oracle(c, i):
         return None
     den = r["den"]
     rows = c["rows"]
+    sc_int = [int(v * den) for v in _pscores(c)]
     st = spec_strip_col([x[1] for x in rows])
     mapped = []     # (key, group, row index)
     for j, s in enumerate(st):
         g = _group_of(P, dm, s)
         if g is not None:
-            mapped.append((pair_key(P, g), g, j))
+            mapped.append((spec_pair_key(P, g), g, j))
     best = {}
     for k, g, j in mapped:
-        sc = int(Fraction(rows[j][2]) * den)
-        best[k] = max(best.get(k, sc), sc)
+        best[k] = max(best.get(k, sc_int[j]), sc_int[j])
     ents = [e[0] for e in i[1]] if c["fn"] == "confidence" else i[1]
+    only_targets = c["fn"] == "confidence" and pres.get("decoys") is False
     seen = {}
     for e in ents:
         g, bp, ss, sc, tg = e
         if g == NAN:
             return f"entry without a protein group: {e!r} (its peptide {ss!r} is not a unique peptide of any group)"
-        k = pair_key(P, g)
+        k = spec_pair_key(P, g)
         if k in seen:
             return f"two entries for the protein pair {k!r}: {seen[k]!r} and {e!r}"
         seen[k] = e
@@ -706,15 +1297,17 @@ def oracle(c, i):
         if k not in best:
             return f"entry {e!r}: no retained peptide maps to the pair {k!r}"
         cands = [j for kk, gg, j in mapped if kk == k and gg == g and rows[j][1] == bp and st[j] == ss
-                 and int(Fraction(rows[j][2]) * den) == sc and bool(rows[j][0]) == tg]
+                 and sc_int[j] == sc and bool(rows[j][0]) == tg]
         if not cands:
             return f"entry {e!r} is not a row of the table mapped to its group (peptide, stripped sequence, score, flag)"
         if sc != best[k]:
             return f"entry {e!r} has score {sc}/{den} but the best peptide of pair {k!r} scores {best[k]}/{den}"
     for k in best:
         if k not in seen:
+            if only_targets and not any(rows[j][0] for kk, gg, j in mapped if kk == k and sc_int[j] == best[k]):
+                continue        # the pair is won by a decoy row: its entry is in decoys.proteins, which was not asked for
             return f"protein pair {k!r} has a retained unique peptide but no entry"
-    if c["fn"] == "confidence":
+    if c["fn"] == "confidence" and not only_targets:
         from .c01 import q_spec
         scs = [e[0][3] for e in i[1]]
         tgs = [e[0][4] for e in i[1]]
@@ -728,6 +1321,9 @@ def oracle(c, i):
 def shrink(c):
     if c["fn"] == "strip":
         col = c["col"]
+        for f in ("dtype", "index"):
+            if c.get(f):
+                yield {k: v for k, v in c.items() if k != f}
         for j in range(len(col)):
             if len(col) > 1:
                 yield dict(c, col=col[:j] + col[j + 1:])
@@ -735,12 +1331,35 @@ def shrink(c):
             for k in range(len(s)):
                 yield dict(c, col=col[:j] + [s[:k] + s[k + 1:]] + col[j + 1:])
         return
+    # presentation facets first, one at a time: a failing case ends with the facet that matters
+    p = c.get("pres") or {}
+    if c.get("index"):
+        yield {k: v for k, v in c.items() if k != "index"}
+    for f in list(p):
+        if f in ("smap", "sdtype"):
+            if f == "smap":
+                q = {k: v for k, v in p.items() if k not in ("smap", "sdtype")}
+                yield dict(c, pres=q) if q else {k: v for k, v in c.items() if k != "pres"}
+                if p.get("sdtype") and p["smap"] != [0, 0]:       # keep the dtype, drop the value map
+                    c2 = dict(c, pres=dict(p, smap=[0, 0]))
+                    if _score_array(_pscores(c2), p["sdtype"]) is not None:
+                        yield c2
+            continue
+        q = {k: v for k, v in p.items() if k != f}
+        if f == "extra" and "order" in q:
+            del q["order"]
+        yield dict(c, pres=q) if q else {k: v for k, v in c.items() if k != "pres"}
     rows = c["rows"]
+    sd = p.get("sdtype", "float64")
     for j in range(len(rows)):
         yield dict(c, rows=rows[:j] + rows[j + 1:])
     for j, r in enumerate(rows):
         if r[1] != r[3] and r[3] != "?":
             yield dict(c, rows=rows[:j] + [[r[0], r[3], r[2], r[3]]] + rows[j + 1:])
+    if p.get("other"):
+        o = p["other"]
+        for j in range(len(o)):
+            yield dict(c, pres=dict(p, other=o[:j] + o[j + 1:]))
 
 
 # ----------------------------------------------------------------------------- exhaustive regex comparison
@@ -799,11 +1418,13 @@ def extra_checks(ctx):
         if not isinstance(k, str) or not isinstance(v, dict) or "order" not in v or v["result"][0] != "ok":
             continue
         c = json.loads(k)
+        if _is_colliding(c):
+            continue
         nord += 1
         if len(set(v["order"])) != len(v["order"]):
             ndup += 1
         st = spec_strip_col([x[1] for x in c["rows"]])
-        need = {j for j, sq in enumerate(st) if _group_of(v["P"], v["dm"], sq) is not None}
+        need = {jm for jm, x in enumerate(_model_rows(c)) if _group_of(v["P"], v["dm"], st[x[3]]) is not None}
         if not need <= set(v["order"]):
             nmiss += 1
     info["oracle_contract_checks"] = {"sample_orders_checked": nord, "with_duplicates": ndup, "missing_retained_rows": nmiss}
